@@ -44,6 +44,9 @@ type program struct {
 	Clients  [][]opSpec `json:"clients"`
 	Prefix   []string   `json:"prefix"`
 	Seq      bool       `json:"seq,omitempty"` // sequential timeline: every op is issued at a quiescent point
+	NoDrain  bool       `json:"nodrain,omitempty"` // slow consumer that never reads again: no final drain (undelivered signals stay undelivered)
+	VolleyG  int        `json:"volley_g,omitempty"` // free-running family: after one Add at idle, K volleys of G simultaneous Adds
+	VolleyK  int        `json:"volley_k,omitempty"`
 	NoGates  bool       `json:"nogates,omitempty"` // long sequential chains: the limiter's decision points are recorded but do not park
 }
 
@@ -94,6 +97,7 @@ func (r *recorder) end() {
 
 type result struct {
 	trace    int
+	htrace   int // index of the hook-level trace in the hook batch, -1 if the run records none
 	schedule []string
 	err      error
 	stuck    int
@@ -245,7 +249,15 @@ func classifyDeadlock(baseline map[string]bool) string {
 	}
 	_ = addOnLock
 	_ = closeOnLock
+	sigSenderBlocked := false
+	for _, g := range goroutines() {
+		if !baseline[g.id] && strings.Contains(g.text, "(*coalescing).fireEvent.func") && blockedSt[g.state] {
+			sigSenderBlocked = true
+		}
+	}
 	switch {
+	case closeInWait && !runAlive && sigSenderBlocked:
+		return "close-vs-undelivered-signal"
 	case closeInWait && runOnLock:
 		return "close-vs-run-lock@" + where
 	case closeInWait && runAlive:
@@ -260,8 +272,9 @@ func runSchedule(b, hb *tv.Batch, prog program, seed int64) result {
 	rng := rand.New(rand.NewSource(seed))
 	rec := &recorder{b: b, hb: hb}
 	tr := b.Start(tv.M{"i": prog.I, "m": prog.M, "cap": prog.Cap, "prog": prog, "seed": seed})
+	htr := -1
 	if hb != nil {
-		hb.Start(tv.M{"i": prog.I, "m": prog.M, "cap": prog.Cap, "kind": prog.Consumer, "seed": seed})
+		htr = hb.Start(tv.M{"i": prog.I, "m": prog.M, "cap": prog.Cap, "kind": prog.Consumer, "seed": seed})
 	}
 	baseline := map[string]bool{}
 	for _, g := range goroutines() {
@@ -284,7 +297,7 @@ func runSchedule(b, hb *tv.Batch, prog program, seed int64) result {
 	}
 	rl, err := ratelimiting.NewCoalescing(opts)
 	if err != nil {
-		return result{trace: tr, err: err}
+		return result{trace: tr, htrace: htr, err: err}
 	}
 	rl.(ratelimiting.RateLimiterWithTicker).WithTicker(clk)
 	nowMs := func() int { return int(clk.Now().Sub(base) / time.Millisecond) }
@@ -442,14 +455,23 @@ func runSchedule(b, hb *tv.Batch, prog program, seed int64) result {
 		}
 		return 4
 	}
-	res := result{trace: tr}
+	res := result{trace: tr, htrace: htr}
 	err = d.Run()
 	if err == nil {
 		// move the clock past every window, then drain: the slow consumer now reads freely; run until nothing moves
 		rec.ev("adv", tv.M{"now": nowMs() + prog.M + 100})
 		clk.Step(time.Duration(prog.M+100) * time.Millisecond)
-		draining.Store(true)
 		d2 := &sched.Driver{C: ctl, Rng: rng, MaxSteps: 3000, AtQuiescence: d.AtQuiescence, Extra: d.Extra}
+		if prog.NoDrain {
+			d2.Weight = func(c sched.Choice) int {
+				if c.Name == "release:consumer.take" {
+					return 0
+				}
+				return 1
+			}
+		} else {
+			draining.Store(true)
+		}
 		err = d2.Run()
 		d.Log = append(d.Log, d2.Log...)
 		if err == nil {
@@ -473,6 +495,139 @@ func runSchedule(b, hb *tv.Batch, prog program, seed int64) result {
 	ctl.Shutdown()
 	cancel()
 	if res.stuck == 0 && err == nil {
+		for i := 0; i < 2000 && !runDone.Load(); i++ {
+			time.Sleep(100 * time.Microsecond)
+		}
+		if runDone.Load() {
+			done := make(chan struct{})
+			go func() { rl.Close(); close(done) }()
+			select {
+			case <-done:
+			case <-time.After(2 * time.Second):
+			}
+		}
+	}
+	close(stop)
+	return res
+}
+
+// runVolley is the free-running (ungated) family: a prompt consumer, the fake clock standing still, one Add at idle and,
+// once that is handled, K volleys of G Adds issued at the same instant by G goroutines (each records its call, waits at a
+// spin barrier for the others, calls Add, records the return).  Observation points are the quiescent states after the
+// first Add, after the volleys and after the final clock step; what signals are due there is the contract's business
+// (with a cap, "cap reached" must have been answered without any clock advance).
+func runVolley(b, hb *tv.Batch, prog program, seed int64) result {
+	rec := &recorder{b: b, hb: hb}
+	tr := b.Start(tv.M{"i": prog.I, "m": prog.M, "cap": prog.Cap, "prog": prog, "seed": seed})
+	htr := -1
+	if hb != nil {
+		htr = hb.Start(tv.M{"i": prog.I, "m": prog.M, "cap": prog.Cap, "kind": "prompt", "seed": seed})
+	}
+	res := result{trace: tr, htrace: htr, schedule: []string{"free-running"}}
+	ctl := sched.New()
+	ctl.OnEvent = func(point string, args []any) { rec.hook(point) }
+	ratelimiting.VerifHook = func(point string, kv ...any) { ctl.Point(point, kv...) }
+	defer func() { ratelimiting.VerifHook = nil }()
+	clk := clocktesting.NewFakeClock(base)
+	id, md := time.Duration(prog.I)*time.Millisecond, time.Duration(prog.M)*time.Millisecond
+	opts := ratelimiting.OptionsCoalescing{InitialDelay: &id, MaxDelay: &md}
+	if prog.Cap > 0 {
+		cp := prog.Cap
+		opts.MaxPendingEvents = &cp
+	}
+	rl, err := ratelimiting.NewCoalescing(opts)
+	if err != nil {
+		res.err = err
+		return res
+	}
+	rl.(ratelimiting.RateLimiterWithTicker).WithTicker(clk)
+	ctx, cancel := context.WithCancel(context.Background())
+	ch := make(chan struct{})
+	stop := make(chan struct{})
+	var runDone atomic.Bool
+	go func() {
+		_ = rl.Run(ctx, ch)
+		rec.ev("run_ret", nil)
+		runDone.Store(true)
+	}()
+	go func() {
+		for {
+			select {
+			case <-ch:
+				rec.ev("signal", nil)
+			case <-stop:
+				return
+			}
+		}
+	}()
+	quiesce := func() bool {
+		if _, qerr := ctl.Quiesce(5 * time.Second); qerr != nil {
+			res.err = qerr
+			return false
+		}
+		rec.ev("quiescent", tv.M{"recv": true})
+		return true
+	}
+	var vmu sync.Mutex
+	nextA := 0
+	call := func(c int) int {
+		vmu.Lock()
+		defer vmu.Unlock()
+		nextA++
+		rec.ev("add_call", tv.M{"n": nextA, "c": c})
+		return nextA
+	}
+	ok := quiesce()
+	if ok {
+		n := call(0)
+		rl.Add()
+		rec.ev("add_ret", tv.M{"n": n, "c": 0})
+		ok = quiesce()
+	}
+	if ok {
+		var arrived atomic.Int64
+		G, K := prog.VolleyG, prog.VolleyK
+		var tasks []*sched.Task
+		for g := 1; g <= G; g++ {
+			g := g
+			tasks = append(tasks, ctl.Go(fmt.Sprintf("c%d:add", g), func() {
+				for r := 1; r <= K; r++ {
+					n := call(g)
+					arrived.Add(1)
+					for spin := 0; arrived.Load() < int64(G*r); spin++ {
+						if spin%256 == 255 {
+							runtime.Gosched()
+						}
+					}
+					rl.Add()
+					rec.ev("add_ret", tv.M{"n": n, "c": g})
+				}
+			}))
+		}
+		deadline := time.Now().Add(10 * time.Second)
+		for _, t := range tasks {
+			for !t.Done() && time.Now().Before(deadline) {
+				time.Sleep(50 * time.Microsecond)
+			}
+			if !t.Done() {
+				res.stuck++
+			}
+		}
+		ok = quiesce()
+	}
+	if ok {
+		now := int(clk.Now().Sub(base) / time.Millisecond)
+		rec.ev("adv", tv.M{"now": now + prog.M + 100})
+		clk.Step(time.Duration(prog.M+100) * time.Millisecond)
+		ok = quiesce()
+	}
+	if ok {
+		rec.ev("stuck", tv.M{"n": res.stuck, "run": false})
+	}
+	rec.end()
+	ctl.Shutdown()
+	cancel()
+	if res.stuck == 0 {
 		for i := 0; i < 2000 && !runDone.Load(); i++ {
 			time.Sleep(100 * time.Microsecond)
 		}
@@ -530,6 +685,7 @@ func genProgram(rng *rand.Rand) program {
 			}
 		}
 	}
+	p.NoDrain = p.Consumer == "slow" && rng.Intn(2) == 0
 	// ending: nothing / cancel / Close / two Closes / cancel and Close, at any point
 	end := rng.Intn(8)
 	at := func(o opSpec) opSpec {
@@ -588,6 +744,39 @@ func genSequential(rng *rand.Rand) program {
 		ops = append(ops, opSpec{Op: "close", Idle: true})
 	case 1:
 		ops = append(ops, opSpec{Op: "cancel", Idle: true})
+	}
+	p.Clients = [][]opSpec{ops}
+	p.NoDrain = p.Consumer == "slow" && rng.Intn(3) == 0
+	return p
+}
+
+// multiChain: two or three successive window chains separated by expiry to idle; chain k opens with an Add at idle
+// (signalled at once, window InitialDelay) and has exts[k] further Adds, each inside the open window (which doubles up to
+// MaxDelay and restarts); then the clock goes to just before the end of the window (nothing), exactly to its end (one
+// signal) and on into an idle gap.  Every chain must be timed like the first one.  The expected instants are the contract's.
+func multiChain(i, m int, exts []int, consumer string, rng *rand.Rand) program {
+	p := program{I: i, M: m, Consumer: consumer, Prefix: []string{}, Seq: true, NoGates: true}
+	var ops []opSpec
+	for _, ne := range exts {
+		ops = append(ops, opSpec{Op: "add", N: 1, Idle: true})
+		w := i
+		for k := 0; k < ne; k++ {
+			d := []int{w - 1, w / 2, 1}[rng.Intn(3)]
+			if d >= 1 && d < w {
+				ops = append(ops, opSpec{Op: "adv", N: d, Idle: true})
+			}
+			ops = append(ops, opSpec{Op: "add", N: 1, Idle: true})
+			if w < m {
+				w *= 2
+				if w > m {
+					w = m
+				}
+			}
+		}
+		if w > 1 {
+			ops = append(ops, opSpec{Op: "adv", N: w - 1, Idle: true})
+		}
+		ops = append(ops, opSpec{Op: "adv", N: 1, Idle: true}, opSpec{Op: "adv", N: 1 + rng.Intn(2*i), Idle: true})
 	}
 	p.Clients = [][]opSpec{ops}
 	return p
@@ -696,6 +885,15 @@ func TestCheck(t *testing.T) {
 		// signals fired while the consumer has not taken the previous one
 		{I: 1, M: 2, Consumer: "slow", Clients: [][]opSpec{{A(1), idle(A(1)), idle(ADV(3)), idle(A(1)), idle(A(1)), idle(ADV(2))}}},
 		{I: 1, M: 4, Cap: 1, Consumer: "slow", Clients: [][]opSpec{{A(1), A(1), A(1)}, {A(1), ADV(1)}}},
+		// Close / cancel while a signal is undelivered because the consumer never reads again (no final drain):
+		// signals from the input path (first Add after idle; cap reached) and from the timer path; Close must return
+		{I: 1, M: 2, Consumer: "slow", NoDrain: true, Seq: true, Clients: [][]opSpec{{idle(A(1)), idle(CL)}}},
+		{I: 1, M: 4, Cap: 1, Consumer: "slow", NoDrain: true, Seq: true, Clients: [][]opSpec{{idle(A(1)), idle(A(1)), idle(CL)}}},
+		{I: 1, M: 4, Cap: 2, Consumer: "slow", NoDrain: true, Seq: true, Clients: [][]opSpec{{idle(A(1)), idle(ADV(2)), idle(A(1)), idle(A(1)), idle(A(1)), idle(CL), idle(CL)}}},
+		{I: 1, M: 2, Consumer: "slow", NoDrain: true, Seq: true, Clients: [][]opSpec{{idle(A(1)), idle(CA), idle(CL)}}},
+		{I: 1, M: 2, Consumer: "slow", NoDrain: true, Seq: true, Clients: [][]opSpec{{idle(A(1)), idle(A(1)), idle(ADV(3)), idle(CL)}}},
+		{I: 1, M: 2, Consumer: "slow", NoDrain: true, Clients: [][]opSpec{{A(1), A(1)}, {after(CL, 1)}, {after(CA, 2)}}},
+		{I: 2, M: 4, Cap: 1, Consumer: "slow", NoDrain: true, Clients: [][]opSpec{{A(2), ADV(1)}, {after(A(1), 1), idle(CL)}}},
 		// an Add racing the timer expiry and the reset to idle
 		{I: 1, M: 2, Consumer: "prompt", Clients: [][]opSpec{{A(1), idle(A(1)), idle(ADV(2))}, {after(A(1), 2)}, {after(ADV(1), 2)}}},
 		{I: 2, M: 2, Consumer: "prompt", Clients: [][]opSpec{{A(1), idle(ADV(2)), A(1)}, {after(A(1), 1)}, {after(ADV(2), 1)}}},
@@ -746,6 +944,42 @@ func TestCheck(t *testing.T) {
 			}
 		}
 	}
+	nChains := 0
+	chainCfgs := [][2]int{{1, 8}, {2, 16}, {1, 100}}
+	if ev.Thorough() {
+		chainCfgs = append(chainCfgs, [][2]int{{3, 24}, {1, 9}, {2, 17}, {1000, 60000}, {1, 4}, {2, 9}, {500, 5000}}...)
+	}
+	for rep := 0; rep < ev.Pick(1, 6); rep++ {
+		for k, im := range chainCfgs {
+			for _, nch := range []int{2, 3} {
+				exts := make([]int, nch)
+				for x := range exts {
+					exts[x] = 1 + rng.Intn(4)
+				}
+				run(multiChain(im[0], im[1], exts, []string{"prompt", "slow"}[(k+nch)%2], rng), rng.Int63())
+				nChains++
+			}
+		}
+	}
+	// free-running volleys of parallel Adds against a cap (cap = all volley Adds exactly, and small caps)
+	nVolley := 0
+	// {G, K, cap, repetitions in the quick tier}: with cap = G*K a single lost count keeps the cap from ever being reached;
+	// one run is ~10 ms, and a lost update needs truly overlapping Adds, so the exact-cap shapes are repeated often
+	volleys := [][4]int{{4, 3, 12, 25}, {4, 4, 16, 25}, {4, 6, 24, 25}, {4, 2, 8, 25}, {3, 4, 12, 25}, {2, 6, 12, 5},
+		{4, 3, 1, 2}, {4, 3, 2, 2}, {4, 3, 3, 2}, {4, 3, 4, 2}, {4, 3, 0, 1}}
+	for _, v := range volleys {
+		for rep := 0; rep < v[3]*ev.Pick(1, 8); rep++ {
+			p := program{I: 1000, M: 5000, Cap: v[2], Consumer: "prompt", Prefix: []string{}, Clients: [][]opSpec{}, VolleyG: v[0], VolleyK: v[1]}
+			r := runVolley(b, nil, p, 0) // no hook-level trace: explaining 16 free-running Adds costs the binding millions of states
+			results = append(results, r)
+			progs = append(progs, p)
+			if r.err != nil {
+				inconcl++
+			}
+			e.Nontrivial(fmt.Sprint(p, len(results)))
+			nVolley++
+		}
+	}
 	nLong := 0
 	for k, l := range longs {
 		run(longBurst(l.i, l.m, l.n, []string{"prompt", "slow"}[k%2], rng), rng.Int63())
@@ -779,7 +1013,9 @@ func TestCheck(t *testing.T) {
 	e.Set("traces_validated_against_impl", int64(jb.Len()))
 	e.Set("sequential_timelines", int64(nSeqRun))
 	e.Set("long_burst_timelines", int64(nLong))
-	e.Set("rule", "a case = (configuration InitialDelay 1-3 ms <= MaxDelay <= 15 ms, MaxPendingEvents unset/1-4, prompt or slow consumer; client program: 1-3 goroutines issuing Add bursts, clock advances inside / exactly at / beyond window ends, cancel, one or two Close) x (seeded schedule over the limiter's decision points coal.run.top/input/timer, coal.add.beforeSend, coal.fire.beforeSend, coal.close.beforeLock and the slow consumer); staged programs + sequential timelines (every op at a quiescent point: unique signal timeline, exact comparison) + long-burst timelines (one chain of 40/70/130 Adds inside a never-expiring window, InitialDelay 1 ms-2 s, MaxDelay up to 1 h, then expiry) + random programs; non-trivial = schedule longer than 6 choices; distinct by (program, schedule)")
+	e.Set("parallel_volley_runs", int64(nVolley))
+	e.Set("multi_chain_timelines", int64(nChains))
+	e.Set("rule", "a case = (configuration InitialDelay 1-3 ms <= MaxDelay <= 15 ms, MaxPendingEvents unset/1-4, prompt or slow consumer; client program: 1-3 goroutines issuing Add bursts, clock advances inside / exactly at / beyond window ends, cancel, one or two Close) x (seeded schedule over the limiter's decision points coal.run.top/input/timer, coal.add.beforeSend, coal.fire.beforeSend, coal.close.beforeLock and the slow consumer); staged programs + sequential timelines (every op at a quiescent point: unique signal timeline, exact comparison) + long-burst timelines (one chain of 40/70/130 Adds inside a never-expiring window, InitialDelay 1 ms-2 s, MaxDelay up to 1 h, then expiry) + multi-chain timelines (2-3 chains with 1-4 extensions each, separated by expiry to idle, MaxDelay >= 8x InitialDelay, timed exactly) + programs whose slow consumer never reads again (Close / cancel with undelivered signals from the input, cap and timer paths) + free-running volleys (G goroutines x K simultaneous Adds at a frozen clock against cap = G*K and caps 1-4; contract only) + random programs; non-trivial = schedule longer than 6 choices; distinct by (program, schedule)")
 	for _, k := range []int{0, len(idx) / 2, len(idx) - 1} {
 		if len(idx) == 0 {
 			break
@@ -800,8 +1036,8 @@ func TestCheck(t *testing.T) {
 	// binding of the implementation-shaped model: hook-level traces must be behaviours of Coalescing.tla (drift, not verdict)
 	jhb := &tv.Batch{}
 	for _, r := range results {
-		if r.err == nil {
-			jhb.AppendTrace(hb.Trace(r.trace))
+		if r.err == nil && r.htrace >= 0 {
+			jhb.AppendTrace(hb.Trace(r.htrace))
 		}
 	}
 	hmissing, hres := tv.ValidateDoneChunked(tlc.Opts{Dir: "Coalescing", Module: "TraceCoalImpl", Config: "TraceCoalImpl.cfg", Workers: 16, Timeout: ev.Pick(6*time.Minute, 40*time.Minute), HeapMB: 12000}, jhb)
@@ -872,6 +1108,8 @@ func modelCheck(e *ev.Evidence) {
 		{name: "MC_defect_skipfire.cfg", want: "MonitorOK", workers: 3, to: 3 * time.Minute},
 		{name: "MC_defect_close2.cfg", want: "MonitorOK", workers: 2, to: 3 * time.Minute},
 		{name: "MC_defect_alwaysdouble.cfg", want: "MonitorOK", workers: 2, to: 3 * time.Minute},
+		{name: "MC_defect_inputctx.cfg", want: "NoWedge", workers: 2, to: 3 * time.Minute},
+		{name: "MC_defect_bfkept.cfg", want: "MonitorOK", workers: 2, to: 3 * time.Minute},
 	}
 	if ev.Thorough() {
 		cfgs[0] = cfg{name: "MC_big.cfg", workers: 8, to: 40 * time.Minute}
